@@ -350,6 +350,10 @@ class Ctx(object):
         return self.regen_obligations('tools.regen.loops_ast', 'Gen_loops.v', 'Lp_%s.v' % self.prop,
                                       'Lp_diag_%s.v' % self.prop, 'lp_')
 
+    def logic_obligations(self):
+        """Qube.or_ / Qube.and_ (and tvl_and / tvl_or) as Gallina terms (tools/regen/logic_ast.py) + coq/obl/Lgc_<prop>.v"""
+        return self.regen_obligations('tools.regen.logic_ast', 'Gen_logic.v', 'Lgc_%s.v' % self.prop, 'Lgc_diag.v', 'lgc_')
+
     def regen_obligations(self, module, genfile, oblfile, diagfile, prefix):
         """Regenerate a table from the CURRENT source with a fail-closed AST analysis and re-prove this
         property's obligation file on it.  A failure is recorded as a broken tie whose detail names what
